@@ -143,9 +143,29 @@ type inst struct {
 	ri   *ringz.SyncRing[int] // the int ring itself (counter fast-forward), nil for other element types
 	cap  int
 	init []int
+	// the twin: a second ring of the same element type that every thread uses alternately with
+	// the first (one Push before, one Pop after each operation).  Two rings share nothing, so
+	// the twin must neither lose, duplicate nor invent a value (package-level pools, caches or
+	// scratch state would couple them).
+	tw  ringAPI
+	twl [16]struct{ pushed, popped []int }
+	// the probe thread runs while the others are frozen in the middle of their operations: it
+	// keeps its hands off the twin (a frozen twin Push would make it wait for ever)
+	probe int
 }
 
 func (x *inst) Do(t int, op sim.Op) sim.Rec {
+	if x.tw != nil && t < len(x.twl) && t != x.probe {
+		l := &x.twl[t]
+		if v := 0x100000 + t<<12 + len(l.pushed); x.tw.Push(v) {
+			l.pushed = append(l.pushed, v)
+		}
+		defer func() {
+			if v, ok := x.tw.Pop(); ok {
+				l.popped = append(l.popped, v)
+			}
+		}()
+	}
 	var r sim.Rec
 	switch op.Op {
 	case "Push":
@@ -288,6 +308,9 @@ func gen(r *sim.Rng, tier string) *sim.Case {
 		}
 	}
 	c.Params["cap_req"] = req
+	if r.Pct(8) {
+		c.Params["twin"] = 1 // a second ring is used alternately by every thread
+	}
 	c.Params["elem"] = r.Pick(6, 2, 3, 2, 1) // element type: int, string, three-word struct, pointer, interface
 	capEff := 2
 	for capEff < req {
@@ -394,7 +417,10 @@ var ffSkipped, ffUsed int
 func build(c *sim.Case) enga.Instance {
 	req := c.P("cap_req")
 	ring, ri := newRing(c.P("elem"), req)
-	x := &inst{r: ring, ri: ri, cap: ring.Cap()}
+	x := &inst{r: ring, ri: ri, cap: ring.Cap(), probe: c.Sched.Probe}
+	if c.P("twin") == 1 {
+		x.tw, _ = newRing(c.P("elem"), 64)
+	}
 	pairs := c.P("pairs")
 	if pairs > 0 {
 		if pairs <= 3*x.cap {
@@ -549,6 +575,38 @@ func check(run *enga.Run) *sim.Violation {
 		run.Out.Probes["blocking_wait_legitimately_stuck"]++
 	case core.EndFrozen, core.EndComplete:
 		quiescent := res.End == core.EndComplete
+		if quiescent && x.tw != nil {
+			run.Out.Probes["twin_instance_used_alternately"]++
+			want, got := map[int]bool{}, map[int]int{}
+			for t := range x.twl {
+				for _, v := range x.twl[t].pushed {
+					want[v] = true
+				}
+				for _, v := range x.twl[t].popped {
+					got[v]++
+				}
+			}
+			for i := 0; i < 70; i++ {
+				v, ok := x.tw.Pop()
+				if !ok {
+					break
+				}
+				got[v]++
+			}
+			for v, n := range got {
+				if !want[v] {
+					return &sim.Violation{Class: "value_invented", Site: site + ".Pop", Detail: fmt.Sprintf("twin ring (used alternately with the first by every thread) delivered %#x, which nobody pushed to it", v)}
+				}
+				if n > 1 {
+					return &sim.Violation{Class: "value_duplicated", Site: site + ".Pop", Detail: fmt.Sprintf("twin ring delivered %#x %d times", v, n)}
+				}
+			}
+			for v := range want {
+				if got[v] == 0 {
+					return &sim.Violation{Class: "value_lost", Site: site + ".Push", Detail: fmt.Sprintf("twin ring lost %#x (pushed successfully, never delivered, not stored)", v)}
+				}
+			}
+		}
 		var L, cnt int
 		var emp, full bool
 		haveProbe := false
